@@ -1,79 +1,69 @@
-"""Static per-property metadata read by the runner (no torch import needed)."""
-
-META = {
-    "C01": {
-        "RULE": "inductive sweep: every single public operation (offsets 0..2N, lengths 1..N, fwd/bwd, "
-                "int / uniform-tensor / per-element-distinct-tensor offset, inplace/not, same/foreign obs dtype) "
-                "applied to a freshly id-filled ring for N in 1..4 x every pointer x {buffer, Parameter, None} "
-                "storage, plus sampled 2-3 op compositions and random 50-300 op histories (N<=30, shapes up to "
-                "3-D, float32/float64/int64/bool); one evaluation = one operation applied and judged "
-                "(return value + full state read back through read(k) and through storage). A case is "
-                "non-trivial unless it is incr/decr by 0; distinct = distinct (op, N, pointer, storage, dtype, "
-                "offset class, length class, direction, offset kind, inplace, foreign dtype) abstractions.",
-        "REQUIRED": ["state_readbacks", "invariant_evaluations", "ops.readrange", "ops.writerange", "ops.push",
-                     "autocreate_checked"],
-        "FLOOR": {"quick": 500, "thorough": 1500},
-        "EXHAUSTIVE": {"quick": ["all single operations x pointer positions x storage kinds, N in {1,2,3,4}, shapes () and (2,)"],
-                       "thorough": ["all single operations x pointer positions x storage kinds, N in {1,2,3,4}, shapes () and (2,)"]},
-        "ASSUMPTIONS": ["reference model rv/models/ring.py (list of observations, rotation for pointer moves)"],
-    },
-    "C02": {
-        "RULE": "records N in {1,2,3,4,5,8} x dt in {1,0.5,0.1,1.3} x every pointer; select/insert calls with times "
-                "constructed as k*dt+delta (delta in {0, +-tol/2, +-2tol (1e-9 when tol=0), dt/4, dt/2, 3dt/4, dt-2tol}), "
-                "scalar / tensor / tensor-with-extra-dim times, per-element mixed on/off-grid, offsets 0..N, tol in "
-                "{0,1e-6,1e-3}, spy and every shipped interpolation/extrapolation, in-place or not, plus out-of-range "
-                "calls; one evaluation = one select/insert call judged (spy arguments, value, all slots). distinct = "
-                "(op, mode, N, dt, tol, grid class, range edge, offset class, function, dtype, inplace) abstractions.",
-        "REQUIRED": ["select_calls", "insert_calls", "oor_calls", "spy_interp_args_checked", "spy_extrap_args_checked",
-                     "roundtrips", "scalar_tensor_agreements", "expected_errors_seen"],
-        "FLOOR": {"quick": 300, "thorough": 1500},
-        "ASSUMPTIONS": ["what is stored is read through RecordTensor.read / the ring model validated by C01"],
-    },
-    "C13": {
-        "RULE": "(a) RecordTensor built with (dt, duration, inclusive) incl. non-representable ratios over 7 storage "
-                "kinds, id-filled to several fill levels and pointer positions, then 1-4 assignments of dt / duration / "
-                "inclusive judged by the literal size formula and read(k) before/after; (b) add/edit/remove of shape "
-                "constraints on an initialised record; (c) random reconstrain add/edit/remove + value assignment "
-                "sequences on ShapedTensor (strict and non-strict, positive and negative dims, buffer/Parameter/None/"
-                "empty) against a dict model. One evaluation = one assignment / reconstrain judged. distinct = "
-                "(part, operation, grow/shrink/no-op, storage state and kind, size classes, strictness, dim sign) abstractions.",
-        "REQUIRED": ["resize_readbacks", "temporal.grow.initialised", "temporal.shrink.initialised",
-                     "temporal.grow.uninitialised", "temporal.shrink.uninitialised", "recshape_ops",
-                     "shaped_reconstrain_ops", "shaped_refusals", "valid_flag_checks"],
-        "FLOOR": {"quick": 150, "thorough": 250},
-        "ASSUMPTIONS": ["read(k) (validated by C01) is the observation k steps before present"],
-    },
-}
-
-NOT_APPLICABLE = {}
-
+"""Static per-property metadata read by the runner and tools/gen_manifest.py (no torch import needed)."""
 _NOTE = ("Trusted: CPython 3.12, PyTorch CPU kernels, the small reference models under rv/models. Decides only the "
          "executions the generators produce (counts in the evidence file); CPU, no autograd.")
+META = {}
+MANIFEST_TEXT = {}
+NOT_APPLICABLE = {}
 
-MANIFEST_TEXT = {
-    "C01": {
-        "text": "Held on every execution explored: each public RecordTensor operation is applied to the real class and "
-                "judged, with a full state read-back, against an independent list-of-observations model using unique-id "
-                "values; the single-operation x pointer x storage-kind space is enumerated completely for N<=4, longer "
-                "histories are sampled. Exploration is the right level: the property is over all histories and a monitor "
-                "decides only those produced.",
-        "note": _NOTE,
-        "technique": "runtime monitoring: reference-model (list ring) monitor + icontract class invariant on the real RecordTensor, exhaustive single-op sweep N<=4 plus random histories",
-    },
-    "C02": {
-        "text": "Held on every select/insert call explored: times are constructed from an integer step and a symbolic "
-                "offset so the oracle knows the slot, grid membership, bracketing samples and elapsed time; a spy "
-                "interpolation/extrapolation records the arguments the real code passes, every slot of storage is compared "
-                "after each insert, scalar and tensor forms are cross-checked and range errors are demanded.",
-        "note": _NOTE,
-        "technique": "runtime monitoring: argument-spy oracle + list-model comparison on the real RecordTensor.select/insert over generated on/off-grid times",
-    },
-    "C13": {
-        "text": "Held on every resize / reconstrain explored: each assignment of dt, duration, inclusive or a shape "
-                "constraint on the real RecordTensor / ShapedTensor is followed by a comparison of the record size with the "
-                "literal formula, of read(k) with the values read before (unique ids; zeros in new slots) and of the "
-                "constraint bookkeeping with a dictionary model, including refusals that must have no side effects.",
-        "note": _NOTE,
-        "technique": "runtime monitoring: before/after observation monitor + dict reference model on the real temporal setters and reconstrain over generated configurations",
-    },
-}
+def _add(pid, *, rule, required, floor, text, technique, assumptions=(), exhaustive=None, shards=None, soft=None,
+         has_suite=False):
+    m = {"RULE": rule, "REQUIRED": list(required), "FLOOR": floor, "ASSUMPTIONS": list(assumptions)}
+    if exhaustive:
+        m["EXHAUSTIVE"] = exhaustive
+    if shards:
+        m["SHARDS"] = shards
+    if soft:
+        m["SOFT"] = soft
+    if has_suite:
+        m["HAS_SUITE"] = True
+    META[pid] = m
+    MANIFEST_TEXT[pid] = {"text": text, "note": _NOTE, "technique": technique}
+
+
+_add(
+    "C01",
+    rule="inductive sweep: every single public operation (offsets 0..2N, lengths 1..N, fwd/bwd, int / uniform-tensor / per-element-distinct-tensor offset, inplace/not, same/foreign obs dtype) applied to a freshly id-filled ring for N in 1..4 x every pointer x {buffer, Parameter, None} storage, plus sampled 2-3 op compositions and random 50-300 op histories (N<=30, shapes up to 3-D, float32/float64/int64/bool); one evaluation = one operation applied and judged (return value + full state read back through read(k) and through storage). A case is non-trivial unless it is incr/decr by 0; distinct = distinct (op, N, pointer, storage, dtype, offset class, length class, direction, offset kind, inplace, foreign dtype) abstractions.",
+    required=["state_readbacks", "invariant_evaluations", "ops.readrange", "ops.writerange", "ops.push", "autocreate_checked"],
+    floor={"quick": 500, "thorough": 1500},
+    text="Held on every execution explored: each public RecordTensor operation is applied to the real class and judged, with a full state read-back, against an independent list-of-observations model using unique-id values; the single-operation x pointer x storage-kind space is enumerated completely for N<=4, longer histories are sampled. Exploration is the right level: the property is over all histories and a monitor decides only those produced.",
+    technique="runtime monitoring: reference-model (list ring) monitor + icontract class invariant on the real RecordTensor, exhaustive single-op sweep N<=4 plus random histories",
+    assumptions=["reference model rv/models/ring.py (list of observations, rotation for pointer moves)"],
+    exhaustive={"quick": ["all single operations x pointer positions x storage kinds, N in {1,2,3,4}, shapes () and (2,)"], "thorough": ["all single operations x pointer positions x storage kinds, N in {1,2,3,4}, shapes () and (2,)"]},
+)
+
+_add(
+    "C02",
+    rule="records N in {1,2,3,4,5,8} x dt in {1,0.5,0.1,1.3} x every pointer; select/insert calls with times constructed as k*dt+delta (delta in {0, +-tol/2, +-2tol (1e-9 when tol=0), dt/4, dt/2, 3dt/4, dt-2tol}), scalar / tensor / tensor-with-extra-dim times, per-element mixed on/off-grid, offsets 0..N, tol in {0,1e-6,1e-3}, spy and every shipped interpolation/extrapolation, in-place or not, plus out-of-range calls; one evaluation = one select/insert call judged (spy arguments, value, all slots). distinct = (op, mode, N, dt, tol, grid class, range edge, offset class, function, dtype, inplace) abstractions.",
+    required=["select_calls", "insert_calls", "oor_calls", "spy_interp_args_checked", "spy_extrap_args_checked", "roundtrips", "scalar_tensor_agreements", "expected_errors_seen"],
+    floor={"quick": 300, "thorough": 1500},
+    text="Held on every select/insert call explored: times are constructed from an integer step and a symbolic offset so the oracle knows the slot, grid membership, bracketing samples and elapsed time; a spy interpolation/extrapolation records the arguments the real code passes, every slot of storage is compared after each insert, scalar and tensor forms are cross-checked and range errors are demanded.",
+    technique="runtime monitoring: argument-spy oracle + list-model comparison on the real RecordTensor.select/insert over generated on/off-grid times",
+    assumptions=["what is stored is read through RecordTensor.read / the ring model validated by C01"],
+)
+
+_add(
+    "C13",
+    rule="(a) RecordTensor built with (dt, duration, inclusive) incl. non-representable ratios over 7 storage kinds, id-filled to several fill levels and pointer positions, then 1-4 assignments of dt / duration / inclusive judged by the literal size formula and read(k) before/after; (b) add/edit/remove of shape constraints on an initialised record; (c) random reconstrain add/edit/remove + value assignment sequences on ShapedTensor (strict and non-strict, positive and negative dims, buffer/Parameter/None/empty) against a dict model. One evaluation = one assignment / reconstrain judged. distinct = (part, operation, grow/shrink/no-op, storage state and kind, size classes, strictness, dim sign) abstractions.",
+    required=["resize_readbacks", "temporal.grow.initialised", "temporal.shrink.initialised", "temporal.grow.uninitialised", "temporal.shrink.uninitialised", "recshape_ops", "shaped_reconstrain_ops", "shaped_refusals", "valid_flag_checks"],
+    floor={"quick": 150, "thorough": 250},
+    text="Held on every resize / reconstrain explored: each assignment of dt, duration, inclusive or a shape constraint on the real RecordTensor / ShapedTensor is followed by a comparison of the record size with the literal formula, of read(k) with the values read before (unique ids; zeros in new slots) and of the constraint bookkeeping with a dictionary model, including refusals that must have no side effects.",
+    technique="runtime monitoring: before/after observation monitor + dict reference model on the real temporal setters and reconstrain over generated configurations",
+    assumptions=["read(k) (validated by C01) is the observation k steps before present"],
+)
+
+_add(
+    "C20",
+    rule="(a) interp(extrap(x)) = x for the 10 shipped pairs at 11 sample times in [0, dt] (linear pairs: open interval), "
+         "linear interpolation bracket laws; (b) per distribution and parameter set: exp(log density) = density, "
+         "trapezoid / cumulative sum of the density = CDF and -> 1, logcdf = log cdf, numeric moments = mean / variance, "
+         "density = its textbook definition (Poisson), params_mv round trip, with float64-tensor and Python-float "
+         "arguments; (c) ISI of random rasters (time-first and time-last, ragged, empty); (d) Victor-Purpura laws on "
+         "triples of spike-time vectors and against an independent dynamic programme. One evaluation = one "
+         "(pair, sample time) / (distribution, parameters) / raster / triple; distinct = abstractions of those.",
+    required=["roundtrip_laws", "linear_bracket_laws", "dist_laws", "isi_trains_checked", "vp_laws"],
+    floor={"quick": 100, "thorough": 200},
+    text="Held on every input explored: algebraic laws that tie the numerical helpers to each other and to their "
+         "definitions are evaluated on the real functions over dense grids and random inputs; a law that fails is "
+         "reported with the offending parameters.",
+    technique="runtime monitoring: algebraic-law (metamorphic) invariants evaluated on the real helper functions over dense grids",
+)
